@@ -9,6 +9,7 @@ import GoSecs.Drv.Construct
 import GoSecs.Drv.Secs1
 import GoSecs.Drv.Linktest
 import GoSecs.Drv.Responder
+import GoSecs.Drv.Ownership
 
 open GoSecs
 
@@ -20,7 +21,8 @@ def handlers : List (String → List String → Option String) := [
   Drv.Construct.handle,
   Drv.Secs1.handle,
   Drv.Linktest.handle,
-  Drv.Responder.handle
+  Drv.Responder.handle,
+  Drv.Ownership.handle
 ]
 
 def dispatch (line : String) : String :=
